@@ -211,15 +211,15 @@ bool StepScript(InterpreterEnv& env)
             if (env.sigscript_executed && !env.sigscript_pushonly)
                 return set_error(serror, SCRIPT_ERR_SIG_PUSHONLY);
 
+            // In validation the saved stack cannot be empty here (the scriptPubKey would have failed on it), but in
+            // a debugger session it can: 'exec' may have supplied the item that the scriptPubKey hashed.
+            if (env.p2shstack.empty())
+                return set_error(serror, SCRIPT_ERR_INVALID_STACK_OPERATION);
+
             // Restore stack.
             is_p2sh = false;
             stack = env.p2shstack;
             // swap(stack, stackCopy);
-
-            // stack cannot be empty here, because if it was the
-            // P2SH  HASH <> EQUAL  scriptPubKey would be evaluated with
-            // an empty stack and the EvalScript above would return false.
-            assert(!stack.empty());
 
             const valtype& pubKeySerialized = stack.back();
             CScript pubKey2(pubKeySerialized.begin(), pubKeySerialized.end());
